@@ -1,0 +1,51 @@
+//go:build verif
+
+// Contracts for the deductive verifier under /verif (comment-only file: it
+// adds no code; compiled only with -tags verif).
+package funnel
+
+
+//verif:func (*dlqWindow).store(w, count, nacked) (r)
+//verif:requires winInv(w) && count >= 0
+//verif:ensures[inv] winInv(w)
+//verif:ensures[range] 0 <= r && r <= count
+//verif:ensures[state] winSt(w) == win_iter(old(winSt(w)), nacked, ite(r == count, count, r+1))
+//verif:ensures[tolerated] nacked ==> forall j in [0, r): win_tolerates(win_iter(old(winSt(w)), nacked, j+1))
+//verif:ensures[refused] nacked && r < count ==> !win_tolerates(win_iter(old(winSt(w)), nacked, r+1))
+//verif:ensures[ackall] !nacked && (len(w.window) == 0 || old(w.nackCount) <= w.nackThreshold) ==> r == count
+//verif:modifies w.cursor, w.nackCount, w.ackCount, w.window[*]
+//verif:loop 0 vars i
+//verif:loop 0 invariant winInv(w) && 0 <= i && i < count && len(w.window) > 0
+//verif:loop 0 invariant w.nackThreshold == old(w.nackThreshold) && w.window == old(w.window)
+//verif:loop 0 invariant winSt(w) == win_iter(old(winSt(w)), nacked, i)
+//verif:loop 0 invariant w.nackCount <= w.nackThreshold
+//verif:loop 0 invariant nacked ==> forall j in [0, i): win_tolerates(win_iter(old(winSt(w)), nacked, j+1))
+//verif:loop 0 hint unfold_win_iter(old(winSt(w)), nacked, i)
+//verif:loop 0 decreases count - i
+//verif:hint unfold_win_iter(old(winSt(w)), nacked, r+1) && unfold_win_iter(old(winSt(w)), nacked, r) && unfold_win_iter(old(winSt(w)), nacked, 0) && lemma_iter_inert(old(winSt(w)), nacked)
+
+//verif:func newDLQWindow(size, threshold) (w)
+//verif:requires size >= 0
+//verif:ensures[fresh] fresh(w) && w != nil
+//verif:ensures[inv] winInv(w)
+//verif:ensures[size] len(w.window) == ite(size > 0 && threshold == 0, 1, size)
+//verif:ensures[init] w.nackCount == 0 && w.nackThreshold == threshold && forall k in [0, len(w.window)): !w.window[k]
+//verif:modifies nothing
+//verif:hint lemma_cnt_allfalse(arr(w.window), len(w.window))
+
+//verif:func (*dlqWindow).Nack(w, count) (r)
+//verif:requires winInv(w) && count >= 0
+//verif:ensures[inv] winInv(w)
+//verif:ensures[range] 0 <= r && r <= count
+//verif:ensures[state] winSt(w) == win_iter(old(winSt(w)), true, ite(r == count, count, r+1))
+//verif:ensures[tolerated] forall j in [0, r): win_tolerates(win_iter(old(winSt(w)), true, j+1))
+//verif:ensures[refused] r < count ==> !win_tolerates(win_iter(old(winSt(w)), true, r+1))
+//verif:modifies w.cursor, w.nackCount, w.ackCount, w.window[*]
+
+//verif:func (*dlqWindow).Ack(w, count)
+//verif:requires winInv(w) && count >= 0
+//verif:ensures[inv] winInv(w)
+//verif:ensures[state] old(w.nackCount) > 0 ==> winSt(w) == win_iter(old(winSt(w)), false, count)
+//verif:ensures[shortcut] old(w.nackCount) == 0 ==> winSt(w) == old(winSt(w)) && win_clean(winSt(w))
+//verif:hint lemma_iter_inert(old(winSt(w)), false) && unfold_win_iter(old(winSt(w)), false, 1) && unfold_win_iter(old(winSt(w)), false, 0) && lemma_cnt_zero_all(arr(w.window), len(w.window))
+//verif:modifies w.cursor, w.nackCount, w.ackCount, w.window[*]
